@@ -276,7 +276,7 @@ where
   F: Send + Sync + Fn(f64, f64) -> Y,
   Y: Into<Complex<f64>>,
 {
-  assert!(divs.is_even());
+  let divs = divs + divs % 2; // odd division counts are rounded up to even, as the 1-D form accepts them
   assert!(divs >= 4);
 
   let steps = divs + 1;
